@@ -133,3 +133,22 @@ Definition op_names_ok (o : op) : bool :=
   | ORename s d => path_ok s && path_ok d
   | OMoveIn d _ _ content => path_ok d && forallb (fun e => path_ok (e_path e)) content
   end.
+
+(* the FileSystemEvent objects put on the queue (string paths) *)
+Inductive ev :=
+| Created (k : kind) (p : bytes) (syn : bool)
+| Deleted (k : kind) (p : bytes)
+| Modified (k : kind) (p : bytes)
+| Moved (k : kind) (s d : bytes) (syn : bool).
+
+Definition dirkind (b : bool) : kind := if b then KDir else KFile.
+
+
+(* abstract event -> the event object with os.path.join'ed string paths *)
+Definition render (root : bytes) (e : aev) : ev :=
+  match e with
+  | ACreated k p syn => Created k (abspath root p) syn
+  | ADeleted k p => Deleted k (abspath root p)
+  | AModified k p => Modified k (abspath root p)
+  | AMoved k s d syn => Moved k (abspath root s) (abspath root d) syn
+  end.
